@@ -122,6 +122,16 @@ pub fn expected_response(
     headers: &std::collections::HashMap<String, String>,
     body: &[u8],
 ) -> Expected {
+    expected_response_capped(route, headers, body, 32 << 20)
+}
+
+/// `cap` bounds the response length a (possibly garbled) control block can ask for.
+pub fn expected_response_capped(
+    route: &str,
+    headers: &std::collections::HashMap<String, String>,
+    body: &[u8],
+    cap: usize,
+) -> Expected {
     let req_hash = fnv(route.as_bytes())
         .rotate_left(13)
         .wrapping_add(headers_hash(headers))
@@ -141,8 +151,9 @@ pub fn expected_response(
             for i in 0..ctl.resp_hdrs {
                 out.insert(format!("h{i}"), format!("v{}-{}", ctl.id, i));
             }
-            let mut b = BytesMut::with_capacity(ctl.resp_len as usize);
-            fill(&mut b, ctl.id ^ 0xABCD, ctl.resp_len as usize);
+            let len = (ctl.resp_len as usize).min(cap);
+            let mut b = BytesMut::with_capacity(len);
+            fill(&mut b, ctl.id ^ 0xABCD, len);
             Expected {
                 status: ctl.status(),
                 headers: out,
@@ -186,6 +197,8 @@ pub struct Recorder {
     pub log: Mutex<Vec<Rec>>,
     pub clones: AtomicI64,
     pub epoch: Instant,
+    /// upper bound for response bodies (protects the harness from garbled control blocks)
+    pub resp_cap: std::sync::atomic::AtomicUsize,
 }
 
 impl Recorder {
@@ -194,6 +207,7 @@ impl Recorder {
             log: Mutex::new(Vec::new()),
             clones: AtomicI64::new(0),
             epoch,
+            resp_cap: std::sync::atomic::AtomicUsize::new(32 << 20),
         })
     }
     pub fn service(self: &Arc<Self>) -> RecorderService {
@@ -306,7 +320,7 @@ impl tower::Service<Request<Bytes>> for RecorderService {
                 base,
                 finished: false,
             };
-            let exp = expected_response(req.route(), req.headers(), req.body());
+            let exp = expected_response_capped(req.route(), req.headers(), req.body(), rec.resp_cap.load(Ordering::Relaxed));
             if let Some(ctl) = &ctl {
                 if ctl.mode == 1 {
                     futures::future::pending::<()>().await;
